@@ -156,10 +156,15 @@ class NodeSpace:
         d["deterministic_token"] = _SymAttr(
             "deterministic_token", lambda self: sym_tokenize(real.__name__, *self.operands), True)
         d["_symx_real"] = real
-        d["__repr__"] = lambda self: f"<{real.__name__} {self._name}>"
-        d["__str__"] = d["__repr__"]
+        d["__repr__"] = lambda self: f"<{real.__name__} {self.__dict__.get('_name', '?')}>"
+        if not any("__str__" in k.__dict__ for k in real.__mro__ if (k.__module__ or "").startswith("dask_array")):
+            d["__str__"] = d["__repr__"]
         d["__hash__"] = lambda self: hash(self._name)
         d["__reduce__"] = lambda self: (_unpicklable, ())
+        space = self
+        # construction through the class itself (e.g. dask's Expr.substitute_parameters doing
+        # type(self)(*operands) in uncloned code) also yields a symbolic node
+        d["__new__"] = lambda cls, *a, **k: space.make(real, *a, **k)
         sub = type("Sym" + real.__name__, (real,), d)
         self._sub[real] = sub
         return sub
